@@ -8,7 +8,7 @@ out=$(mktemp -d /tmp/tryout.XXXXXX)
 git -C /repo worktree add --detach "$wt" HEAD -q || exit 3
 if ! git -C "$wt" apply "$patch"; then echo "PATCH-DOES-NOT-APPLY"; git -C /repo worktree remove --force "$wt"; exit 3; fi
 cd /verif
-GBASIS_ROOT="$wt" VERIF_OUT="$out" timeout 3000 ./check "$prop" --tier quick --scale "$scale" 2>&1 | grep -E "VIOLATION|HARNESS|KNOWN|OK property|candidate|^  |runs=" | cut -c1-420
+GBASIS_ROOT="$wt" VERIF_OUT="$out" VERIF_TRIAGE_FAST="${VERIF_TRIAGE_FAST:-}" timeout 3000 ./check "$prop" --tier quick --scale "$scale" 2>&1 | grep -E "VIOLATION|HARNESS|KNOWN|OK property|candidate|violation classes|^  |runs=" | cut -c1-420
 rc=${PIPESTATUS[0]}
 git -C /repo worktree remove --force "$wt"
 rm -rf "$out"
